@@ -55,7 +55,7 @@ pub mod v1 {
     use super::*;
 
     #[remoc::rtc::remote(clone)]
-    pub trait Counter {
+    pub trait Counter: Send + Sync {
         async fn get(&self, call: u32, steps: u32) -> Result<u64, CallError>;
         async fn add(&mut self, call: u32, k: u64, steps: u32) -> Result<u64, CallError>;
         #[no_cancel]
@@ -64,6 +64,12 @@ pub mod v1 {
         async fn hang_ref(&self, call: u32) -> Result<u64, CallError>;
         async fn big(&self, call: u32, size: u32) -> Result<Vec<u8>, CallError>;
         async fn picky(&self, call: u32, arg: Picky) -> Result<u64, CallError>;
+        /// A method with a default body (composed of other trait methods); the target overrides it.  Wherever the
+        /// default body runs, it is not the target's method.
+        async fn bump(&mut self, call: u32, k: u64) -> Result<u64, CallError> {
+            self.add(call, k, 0).await?;
+            self.add(call, k, 0).await
+        }
     }
 }
 
@@ -72,7 +78,7 @@ pub mod v2 {
     use super::*;
 
     #[remoc::rtc::remote(clone)]
-    pub trait Counter {
+    pub trait Counter: Send + Sync {
         async fn get(&self, call: u32, steps: u32) -> Result<u64, CallError>;
         async fn add(&mut self, call: u32, k: u64, steps: u32) -> Result<u64, CallError>;
         #[no_cancel]
@@ -81,6 +87,10 @@ pub mod v2 {
         async fn hang_ref(&self, call: u32) -> Result<u64, CallError>;
         async fn big(&self, call: u32, size: u32) -> Result<Vec<u8>, CallError>;
         async fn picky(&self, call: u32, arg: Picky) -> Result<u64, CallError>;
+        async fn bump(&mut self, call: u32, k: u64) -> Result<u64, CallError> {
+            self.add(call, k, 0).await?;
+            self.add(call, k, 0).await
+        }
         async fn extra(&self, call: u32) -> Result<u64, CallError>;
     }
 }
@@ -157,6 +167,15 @@ impl v1::Counter for Obj {
         g.end("picky", self.val, self.val, self.val);
         Ok(self.val)
     }
+    async fn bump(&mut self, call: u32, k: u64) -> Result<u64, CallError> {
+        // the target's own version: one atomic execution adding 2k
+        let before = self.val;
+        let g = ExecGuard::start(call, "bump", before);
+        yields(2).await;
+        self.val = before + 2 * k;
+        g.end("bump", before, self.val, self.val);
+        Ok(self.val)
+    }
 }
 
 impl once::Taker for Obj {
@@ -229,7 +248,8 @@ async fn client_task(mut c: v1::CounterClient, cl: u64, ep: u64, mut rng: Rng, n
         let (m, arg): (&str, u64) = match pick {
             0..=5 => ("get", 0),
             6..=10 => ("add", k),
-            11 | 12 => ("add_nc", k),
+            11 => ("add_nc", k),
+            12 => ("bump", k),
             13 | 14 => ("hang", 0),
             15 => ("hang_ref", 0),
             16 | 17 if opts.oversize => ("big", if rng.chance(1, 2) { REPLY_LIMIT as u64 + rng.range(50, 400) } else { rng.range(1, 200) }),
@@ -243,6 +263,7 @@ async fn client_task(mut c: v1::CounterClient, cl: u64, ep: u64, mut rng: Rng, n
             "get" => log_ret(call, cancel_after(c.get(call, steps), polls).await, |v| *v),
             "add" => log_ret(call, cancel_after(c.add(call, k, steps), polls).await, |v| *v),
             "add_nc" => log_ret(call, cancel_after(c.add_nc(call, k, steps), polls).await, |v| *v),
+            "bump" => log_ret(call, Some(c.bump(call, k).await), |v| *v),
             "hang" => log_ret(call, cancel_after(c.hang(call), polls).await, |v| *v),
             "hang_ref" => log_ret(call, cancel_after(c.hang_ref(call), polls).await, |v| *v),
             "big" => log_ret(call, cancel_after(c.big(call, arg as u32), polls).await, |v| v.len() as u64),
